@@ -100,7 +100,8 @@ def check_one(ctx, pms, fmt, D, order_seed, doc, cor):
     bad_doc = DC.apply(fmt, doc, cor)
     if bad_doc is None:
         return False
-    textin = DC.render(fmt, bad_doc)
+    import random as _random
+    textin = DC.render(fmt, bad_doc, _random.Random(order_seed ^ len(str(cor))))
     kind = cor["kind"]
     ctx.count("kind-" + kind)
     try:
